@@ -107,6 +107,16 @@ def make_cfgs(tier):
     for algo in A.ALGO_NAMES:
         if algo not in ("GPO", "POO"):
             corners.append((algo, {"h_max": 9} if algo == "VROOM" else {}, 100, rnd.choice([1, 1, 2, 3])))
+    # deep caps with a short run (a descent to the cap in one call), and StroquOOL stopped inside its cross-validation
+    # window (candidates whose reward lists were just restarted)
+    corners += [("VROOM", {"h_max": 1000}, 1000, 1), ("SOO", {"h_max": 1000}, 1000, 6), ("StoSOO", {"h_max": 1000, "k": 1}, 1000, 6)]
+    from . import c04
+    for n in (100, 300, 1000):
+        t0, hm = c04.validation_start(n)
+        if t0:
+            for T in sorted({t0, t0 + 1, t0 + hm, t0 + hm + 1, t0 + 2 * hm + 1}):
+                if T <= n:
+                    corners.append(("StroquOOL", {}, n, T))
     for (algo, prm, n, T) in corners:
         i += 1
         cfgs.append({"id": i, "algo": algo, "kind": "bin", "K": 2, "D": 1, "box": [[0.0, 1.0]], "n": n, "T": T, "prm": prm, "pattern": "noisy", "seed": rnd.randrange(1 << 30), "timeout": 30})
